@@ -125,6 +125,12 @@ def decode_quoted(text):
 # ---------------------------------------------------------------------------
 # operator-free term parser
 
+def _ext(c):
+    """a non-ASCII character that is not white space: extended characters are
+    processor defined (ISO 6.5), the liberal choice is 'part of a name'"""
+    return ord(c) > 127 and not c.isspace()
+
+
 def _tokens(s):
     """-> list of (kind, value, start, end)"""
     toks = []
@@ -164,13 +170,13 @@ def _tokens(s):
             i = j
         elif c == "_" or c in UPPER:
             j = i
-            while j < n and (s[j] in ALNUM or (ord(s[j]) > 127 and s[j].isalnum())):
+            while j < n and (s[j] in ALNUM or _ext(s[j])):
                 j += 1
             toks.append(("var", s[i:j], st, j))
             i = j
-        elif c in LOWER or (ord(c) > 127 and c.isalpha() and not c.isupper()):
+        elif c in LOWER or (_ext(c) and not c.isupper()):
             j = i
-            while j < n and (s[j] in ALNUM or (ord(s[j]) > 127 and s[j].isalnum())):
+            while j < n and (s[j] in ALNUM or _ext(s[j])):
                 j += 1
             toks.append(("atom", s[i:j], st, j))
             i = j
